@@ -37,7 +37,7 @@ for f in sorted(glob.glob(os.path.join(root, 'seeded', '*', 'meta.json'))):
 open(os.path.join(root, 'seeded', 'README.md'), 'w').write(
     "# Independently written breaking changes\n\nEach directory holds `patch.diff` (against /repo HEAD at the time), "
     "`demo.py` (fails with the patch, passes without), the author's `note.md` and `meta.json`.\n"
-    "None of these patches is ever committed to /repo. Suffix b..i = rounds 2..9. For the rounds e, f, g, h and i only the check of the seed's own property was run when the seed was stored, so the column lists that check alone; `tools/all_seeds.sh` fills in the other checks, `tools/seeds_own.sh` re-runs the own checks at several seeds.\n\n"
+    "None of these patches is ever committed to /repo. Suffix b..j = rounds 2..10 (round 10: ten properties only). For the rounds e to j only the check of the seed's own property was run when the seed was stored, so the column lists that check alone; `tools/all_seeds.sh` fills in the other checks, `tools/seeds_own.sh` re-runs the own checks at several seeds.\n\n"
     "| seed | property | needs to manifest | reported by (quick tier) | remark |\n|---|---|---|---|---|\n"
     + '\n'.join(rows) + '\n')
 print(json.dumps(meta['checks_reporting_it'], indent=1))
